@@ -911,7 +911,12 @@ class Exec:
                 self.tcov_now = ["1 hour", "10 minutes", None][o.get("tcov", 0) % 3] \
                     if self.tcov_now is None else None
                 fs.time_coverage = self.tcov_now
+                # the persisted cache does not record the coverage it was made
+                # with: a user who changes it throws the file away - at once
+                # (a lazily kept flag was cleared by accident twice, see
+                # DESIGN.md section 12)
                 self.cov_dirty = True
+                self._discard_foreign_cache()
                 if fs.info_cache:
                     self.V.append(_viol("C15/coverage-reset",
                                         "info cache not reset by time_coverage"))
@@ -995,6 +1000,10 @@ class Exec:
             # each must give a warning and an empty cache on restart
             stride = max(1, len(data) // 600)
             keep_atexit = self.atexit
+            # (the restarts of the sweep look at the truncated documents
+            # themselves; whether the complete document is stale with respect
+            # to a changed coverage is decided when it is back in place)
+            keep_dirty, self.cov_dirty = self.cov_dirty, False
             for cut in range(0, len(data), stride):
                 with open(path, "wb") as f:
                     f.write(data[:cut])
@@ -1005,6 +1014,7 @@ class Exec:
                     self._construct()
                 self.sweeps += 1
             self.atexit = keep_atexit
+            self.cov_dirty = keep_dirty
             with open(path, "wb") as f:
                 f.write(data)
             self.probe("corrupt_truncated_sweep")
